@@ -1,8 +1,10 @@
 // Command corrfile: C11 / C15 correspondence on real proving-system files.
-//   header <d> <b>                        => first 8 bytes of the written file (hex)
-//   parseheader <hex16>                   => "<depth> <batch>" as UnsafeReadFrom loads them
-//   cut <total> <lpk> <lvk> <lcs> <k>     => error <stage> | ok | panic | hang   (UnsafeReadFrom on the first k bytes)
-//   layout|reload|cross|convert <label>   => ok | what differs               (constants of the protocol)
+//
+//	header <d> <b>                        => first 8 bytes of the written file (hex)
+//	parseheader <hex16>                   => "<depth> <batch>" as UnsafeReadFrom loads them
+//	cut <total> <lpk> <lvk> <lcs> <k>     => error <stage> | ok | panic | hang   (UnsafeReadFrom on the first k bytes)
+//	layout|reload|cross|convert <label>   => ok | what differs               (constants of the protocol)
+//
 // Systems: tiny ones (a one-constraint circuit inside a prover.ProvingSystem, so that EVERY cut
 // offset can be enumerated) and, with -real, a real insertion system with cross prove/verify.
 package main
